@@ -164,6 +164,9 @@ impl Prop for C11 {
     // literal alone evaluates to exactly the block - or, for matrix blocks, as a slice expression b[:,:]
     let h = case.id.bytes().fold(0xcbf29ce484222325u64, |h, b| (h ^ b as u64).wrapping_mul(0x100000001b3));
     let mut forms = String::new();
+    // element separators: blanks as generated, or commas (by the hash of the case id; applied while the text holds names only)
+    let commas = (h >> 57) & 3 == 1;
+    if commas { src = src.replace(' ', ", ").replace(";, ", "; "); }
     if built["expect"].is_null() || h % 3 == 0 { forms.push_str("all-variables"); } else {
       for (i, (n, v)) in blocks.iter().enumerate() {
         let pick = (h >> (3 + 2 * (i % 28))) & 3;
@@ -177,7 +180,8 @@ impl Prop for C11 {
       }
     }
     // row separators: `; ` as generated, `;` + newline, or a bare newline (by the hash of the case id)
-    match (h >> 61) & 3 { 1 => { src = src.replace("; ", ";\n "); forms.push_str("+sep:semicolon-newline"); } 2 => { src = src.replace("; ", "\n "); forms.push_str("+sep:newline"); } _ => {} }
+    match (h >> 61) & 3 { 1 => { src = src.replace("; ", ";\n "); forms.push_str("+sep:semicolon-newline"); } 2 => { src = src.replace("; ", "\n "); forms.push_str("+sep:newline"); } 3 if commas => { src = src.replace("; ", ",\n "); forms.push_str("+sep:comma-newline"); } _ => {} }
+    if commas { forms.push_str("+commas"); }
     let src = src.as_str();
     let res = s.eval(src);
     let arm = s.last_arm();
